@@ -230,6 +230,17 @@ pub fn exec(scen: &Scenario) -> Exec {
                     }
                 }
             }
+            if let Some(r) = tweak {
+                rep.evaluations += 1;
+                match C::aggregate_with_tweak(pkg, &sh, &pk, r) {
+                    Ok(_) => return Err(viol("C18.bad_shares_accepted", format!("{what} (R odd: {r_odd}): aggregate_with_tweak accepted altered shares"))),
+                    Err(e) => {
+                        if e.culprits() != vec![dmin] {
+                            return Err(viol("C18.wrong_culprits_in_parity_cell", format!("{what} (internal key odd: {}, output key odd: {}, R odd: {r_odd}): aggregate_with_tweak named {:?}, lowest cheater was {}", taproot::y_is_odd(&internal), taproot::y_is_odd(&out_key), e.culprits().iter().map(|i| hexs(&i.serialize())).collect::<Vec<_>>(), hexs(&dmin.serialize()))));
+                        }
+                    }
+                }
+            }
             for id in &ids {
                 let r = frost::verify_signature_share::<C>(*id, &lib_pk.verifying_shares()[id], &sh[id], pkg, lib_pk.verifying_key());
                 if r.is_ok() == d.contains(id) {
